@@ -23,7 +23,10 @@ func (s *UnregisteredSEI) Size() uint {
 
 // String provides a short description of the SEI message.
 func (s *UnregisteredSEI) String() string {
-	payloadAfterUUID := string(s.payload[16:])
+	payloadAfterUUID := ""
+	if len(s.payload) > 16 {
+		payloadAfterUUID = string(s.payload[16:])
+	}
 	return fmt.Sprintf("SEI type %d, size=%d, uuid=%q, payload=%q",
 		s.Type(), s.Size(), hex.EncodeToString(s.UUID), payloadAfterUUID)
 }
@@ -35,6 +38,9 @@ func (s *UnregisteredSEI) Payload() []byte {
 
 // DecodeUserDataUnregisteredSEI decodes an unregistered SEI message (type 5).
 func DecodeUserDataUnregisteredSEI(sd *SEIData) (SEIMessage, error) {
+	if len(sd.payload) < 16 {
+		return nil, fmt.Errorf("user_data_unregistered payload too short: %d bytes", len(sd.payload))
+	}
 	uuid := sd.payload[:16]
 	return NewUnregisteredSEI(sd, uuid), nil
 }
